@@ -92,6 +92,7 @@ type wRunner struct {
 	jobStart    time.Time
 	short       bool
 	quit        bool
+	failure     string
 }
 
 func (r *wRunner) gone() bool {
@@ -220,6 +221,7 @@ func (r *wRunner) exec(e *WEv) bool {
 		select {
 		case <-r.w.Done():
 		case <-time.After(wPresentWait):
+			r.failure = "stop-blocked: worker.Run did not return after quit was closed (a send or wait without the quit alternative)"
 		}
 	default:
 		return false
@@ -258,6 +260,10 @@ func genWorkerHistory(r *rand.Rand, n int) []WEv {
 		}
 		switch {
 		case job.Pre != 0:
+			if r.Intn(4) == 0 {
+				// told to quit while holding the cancel result nobody takes
+				evs = append(evs, WEv{K: "quit"})
+			}
 		case job.Short:
 			evs = append(evs, WEv{K: "timer"})
 		case cause < 55:
@@ -298,6 +304,9 @@ func runWorkerHistory(h *History) {
 			e.Skipped = true
 		}
 		h.WEvents = append(h.WEvents, e)
+		if run.failure != "" && h.Failure == "" {
+			h.Failure, h.FailStep = run.failure, len(h.WEvents)-1
+		}
 	}
 }
 
@@ -348,6 +357,8 @@ func workerCorpus() [][]WEv {
 		{{K: "job", J: 0, Pre: 2}, T, J(1), {K: "msg", Fin: true}, T, {K: "job", J: 2, Pre: 1}, T},
 		{J(0), {K: "cancel"}, T, {K: "job", J: 1, Short: true}, {K: "timer"}, T, J(2), {K: "disc"}, T, J(3)},
 		{J(0), {K: "msg"}, {K: "msg", Prog: true}, J(1), T, {K: "quit"}, T, J(2)},
+		{J(0), {K: "msg", Fin: true}, T, {K: "job", J: 1, Pre: 1}, {K: "quit"}, T},
+		{{K: "job", J: 0, Pre: 2}, {K: "quit"}, T},
 	}
 }
 
@@ -367,12 +378,23 @@ type sysScenario struct {
 	MovedAfterMs int `json:"movedafterms,omitempty"` // observed: request reached the honest peer
 	DoneAfterMs  int `json:"doneafterms,omitempty"`  // observed: verdict
 	MaxGapMs     int `json:"maxgapms,omitempty"`     // observed: largest gap between two chatter messages
+	// cancelstop / idlewakes families (shutdown.go)
+	Trials  int `json:"trials,omitempty"`
+	Offset  int `json:"offset,omitempty"`
+	Missing int `json:"missing,omitempty"` // observed: batches without a verdict
 }
 
 func runSystem(h *History) {
 	sc := h.System
-	if sc.Kind == "noise" || sc.Kind == "progress" {
+	switch sc.Kind {
+	case "noise", "progress":
 		runTimed(h)
+		return
+	case "cancelstop":
+		runCancelStop(h)
+		return
+	case "idlewakes":
+		runIdleWakes(h)
 		return
 	}
 	fail := func(step int, what string) {
